@@ -8,10 +8,10 @@ hooks=subprocess.run("git -C /repo log --format='%h %s' a37e84986..HEAD", shell=
 hook_commits=[l.split()[0] for l in hooks if l.split(' ',1)[1].startswith('verif hook')]
 checks=[]; na=[]
 for p in props:
-    pid=p['id']; mp=f'{V}/meta/{pid}.json'
-    if not os.path.exists(mp):
+    pid=p['id']
+    if not glob.glob(f'{V}/meta/parts/{pid}.*.json'):
         na.append({'property_id':pid,'reason':'not claimed in this revision: model/harness not built yet (work in progress, see DESIGN.md §8)'}); continue
-    m=json.load(open(mp))
+    import sys; sys.path.insert(0,V+'/tools'); import check; m=check.load_meta(pid)
     if m.get('not_applicable'):
         na.append({'property_id':pid,'reason':m['not_applicable']}); continue
     checks.append({
